@@ -7,7 +7,7 @@ KEYS = ["resclass", "pc", "ccr", "er", "md", "sum", "q", "msgs", "con"]
 RULE = ("random programs: blocks of register instructions, counted loops (DEC/BNE, nested), BSR/JSR subroutines, MOV.B stores to port DDR/DR, "
         "8-bit timer 0 started by the program in about 40% of the runs (TCNT / TCSR / pending requests at exit are compared), MES write calls, optional unimplemented opcode (run must fail); a few long loops crossing 1-3 sync thresholds; "
         "distinct = distinct (program, final state, message sequence)")
-SHARD_TIMEOUT = 1500
+SHARD_TIMEOUT = 3000
 
 def nontrivial_key(case, model):
     return (case.get("mem"), model.get("res"), model.get("sum"), model.get("msgs"))
